@@ -229,6 +229,10 @@ class Program:
             inl = Inliner(self).run()
             self.inlined_calls = inl.inlined_calls
             self.transparent_helpers = set(inl.transparent)
+            if os.environ.get("SA_NO_NORMALIZE") != "1":
+                from . import normalize
+
+                self.substituted_aliases = normalize.run(self)
             for m in self.modules.values():
                 m._symbols = None
             self._class_index = None
